@@ -1,4 +1,7 @@
 import MokapotVerif.Lemmas.MergePrefix
+import MokapotVerif.Lemmas.MergeStable
+import MokapotVerif.Lemmas.MergeMap
+import MokapotVerif.Lemmas.MergeFrames
 /-!
 # C14 — k-way merge returns every row once, globally sorted by score
 
@@ -13,12 +16,18 @@ the row sequences of the input files / readers: any number of them, of any lengt
   (result: rows yielded, and whether `ValueError` was then raised),
   `kmergeCheckedFiles … c` the same with `reader_chunk_size = c`;
 * `none` = the code raises before yielding anything (no input at all, or an input without rows).
+* `stableSortDesc le xs` / `stableSortAs le desc xs`: the declarative tie rule — the stable sort of the
+  inputs written one after the other (rows of equal score in (input index, position) order);
+* `kmergeCheckedCols leβ hasKey proj desc c` is `get_row_iterator(columns=…)` (rows projected by `proj`
+  before they are merged; `hasKey = false`: the priority column was not selected);
+* `kmDeliverFrames c r` / `kmDeliverRead r`: what `get_chunked_data_iterator(c)` (`merge_readers`: `c = 1`)
+  and `read()` hand to their consumer when the row iterator ended as `r = (rows, raised?)`.
 
 `NonIncr le xs`: `xs` is non-increasing; `SortedAs le desc xs`: sorted as declared
 (non-increasing if `desc`, non-decreasing otherwise).
 -/
 namespace Mk.Merge
-variable {α κ : Type}
+variable {α β κ : Type}
 
 /-! ## `mokapot.utils.merge_sort` -/
 
@@ -212,6 +221,233 @@ theorem C14_spec_checked_iff [BEq α] [LawfulBEq α] (le : α → α → Bool) (
         (err = false → out.Perm inputs.flatten) ∧ (err = true → out.Subperm inputs.flatten)) :=
   specChecked_ok_iff hle desc inputs out err
 
+/-! ## The tie rule: the result is the *stable* sort of the concatenated inputs
+
+`stableSortDesc le xs` is the stable sort of `xs` by decreasing score (`stableSortAs le desc`
+in the declared direction).  Its declarative meaning — a permutation, non-increasing, and
+every score class in its original order — is `C14_stable_sort_spec`, and these three clauses
+determine it (`C14_stable_sort_unique`). -/
+
+/-- the rows that tie with `t` -/
+def tieWith (le : α → α → Bool) (t : α) : α → Bool := fun r => le t r && le r t
+
+/-- the stable sort is a permutation, non-increasing, and keeps every score class in the
+order in which its rows were written -/
+theorem C14_stable_sort_spec (le : α → α → Bool) (hle : TotalPre le) (xs : List α) :
+    (stableSortDesc le xs).Perm xs ∧ NonIncr le (stableSortDesc le xs) ∧
+      ∀ t, (stableSortDesc le xs).filter (tieWith le t) = xs.filter (tieWith le t) :=
+  ⟨stableSortDesc_perm le xs, stableSortDesc_sorted le hle xs,
+    fun t => stableSortDesc_filter le hle t xs⟩
+
+/-- … and nothing else has these three properties: two non-increasing arrangements of the
+same rows that agree on every score class are equal -/
+theorem C14_stable_sort_unique (le : α → α → Bool) (hle : TotalPre le) (xs ys : List α)
+    (hp : ys.Perm xs) (hsort : NonIncr le ys)
+    (hst : ∀ t, ys.filter (tieWith le t) = xs.filter (tieWith le t)) :
+    ys = stableSortDesc le xs := by
+  have key : ∀ (ys zs : List α), ys.Perm zs → NonIncr le ys → NonIncr le zs →
+      (∀ t, ys.filter (tieWith le t) = zs.filter (tieWith le t)) → ys = zs := by
+    intro ys
+    induction ys with
+    | nil => intro zs hp _ _ _; exact (List.nil_perm.mp hp).symm
+    | cons y ys ih =>
+      intro zs hp hy hz hf
+      cases zs with
+      | nil => exact absurd (List.perm_nil.mp hp) (by simp)
+      | cons z zs =>
+        have hzy : le z y = true := by
+          have : z ∈ y :: ys := hp.symm.subset (by simp)
+          rcases List.mem_cons.mp this with rfl | h
+          · exact hle.refl _
+          · exact (List.pairwise_cons.mp hy).1 z h
+        have hyz : le y z = true := by
+          have : y ∈ z :: zs := hp.subset (by simp)
+          rcases List.mem_cons.mp this with rfl | h
+          · exact hle.refl _
+          · exact (List.pairwise_cons.mp hz).1 y h
+        have h0 := hf y
+        have e1 : tieWith le y y = true := by simp [tieWith, hle.refl]
+        have e2 : tieWith le y z = true := by simp [tieWith, hyz, hzy]
+        rw [List.filter_cons, List.filter_cons, e1, e2] at h0
+        simp only [if_true] at h0
+        have hyz' : y = z := (List.cons.inj h0).1
+        subst hyz'
+        congr 1
+        refine ih zs ((List.perm_cons y).mp hp) (List.pairwise_cons.mp hy).2
+          (List.pairwise_cons.mp hz).2 ?_
+        intro t
+        have := hf t
+        rw [List.filter_cons, List.filter_cons] at this
+        split at this
+        · exact (List.cons.inj this).2
+        · exact this
+  have hs := C14_stable_sort_spec le hle xs
+  exact key ys _ (hp.trans hs.1.symm) hsort hs.2.1 (fun t => (hst t).trans (hs.2.2 t).symm)
+
+/-- `merge_sort` on non-increasing inputs returns exactly the stable sort by decreasing score
+of the inputs written one after the other: rows of equal score come out ordered by (input
+index, position in the input) — "first input wins".  The result is determined row by row. -/
+theorem C14_kmerge_eq_stable_sort (le : α → α → Bool) (hle : TotalPre le)
+    (inputs : List (List α)) (out : List α) (hs : ∀ xs ∈ inputs, NonIncr le xs)
+    (h : kmerge le inputs = some out) : out = stableSortDesc le inputs.flatten := by
+  have hall := (openAll_sorted_iff (NonIncr le) (by simp [NonIncr]) inputs).mpr hs
+  rw [kmerge_some h, ← openAll_rows]
+  exact mergeLoop_stable le hle _ _ (Nat.le_refl _) hall
+
+/-- the table merger on inputs sorted as declared (either mode): no error, and the rows
+yielded are exactly the stable sort, in the declared direction, of the concatenated inputs -/
+theorem C14_checked_eq_stable_sort (le : α → α → Bool) (hle : TotalPre le) (desc : Bool)
+    (inputs : List (List α)) (hne : inputs ≠ []) (hrow : [] ∉ inputs)
+    (hs : ∀ xs ∈ inputs, SortedAs le desc xs) :
+    kmergeChecked le desc inputs = some (stableSortAs le desc inputs.flatten, false) := by
+  have hdesc : ∀ (le : α → α → Bool), TotalPre le → (∀ xs ∈ inputs, NonIncr le xs) →
+      kmergeChecked le true inputs = some (stableSortDesc le inputs.flatten, false) := by
+    intro le hle hs
+    rw [C14_checked_eq_kmerge le hle inputs hs]
+    cases hk : kmerge le inputs with
+    | none =>
+      rcases (kmerge_none_iff le inputs).mp hk with h | h
+      · exact absurd h hne
+      · exact absurd h hrow
+    | some out => rw [C14_kmerge_eq_stable_sort le hle inputs out hs hk]; rfl
+  cases desc
+  · rw [kmergeChecked_dual]
+    have := hdesc (fun a b => le b a) (totalPre_dual hle) (by simpa [SortedAs] using hs)
+    simpa [stableSortAs] using this
+  · have := hdesc le hle (by simpa [SortedAs] using hs)
+    simpa [stableSortAs] using this
+
+/-- independence of the number of inputs and of their lengths, row by row (tie order
+included): however one and the same row sequence is cut into non-increasing inputs —
+one file, eight files, single-row files — `merge_sort` returns the same rows in the same order -/
+theorem C14_kmerge_split_invariant (le : α → α → Bool) (hle : TotalPre le)
+    (ins₁ ins₂ : List (List α)) (out₁ out₂ : List α)
+    (hs₁ : ∀ xs ∈ ins₁, NonIncr le xs) (hs₂ : ∀ xs ∈ ins₂, NonIncr le xs)
+    (hflat : ins₁.flatten = ins₂.flatten)
+    (h₁ : kmerge le ins₁ = some out₁) (h₂ : kmerge le ins₂ = some out₂) : out₁ = out₂ := by
+  rw [C14_kmerge_eq_stable_sort le hle ins₁ out₁ hs₁ h₁,
+    C14_kmerge_eq_stable_sort le hle ins₂ out₂ hs₂ h₂, hflat]
+
+/-- independence of the number of inputs for the table merger, both modes: however the same
+rows are distributed over inputs sorted as declared, no error is raised and the merged score
+sequence is the same (`key` is the score, `lek` its antisymmetric order) -/
+theorem C14_checked_any_k (key : α → κ) (lek : κ → κ → Bool) (hk : TotalPre lek)
+    (hanti : ∀ a b, lek a b = true → lek b a = true → a = b) (desc : Bool)
+    (ins₁ ins₂ : List (List α)) (out₁ out₂ : List α) (e₁ e₂ : Bool)
+    (hs₁ : ∀ xs ∈ ins₁, SortedAs (fun a b => lek (key a) (key b)) desc xs)
+    (hs₂ : ∀ xs ∈ ins₂, SortedAs (fun a b => lek (key a) (key b)) desc xs)
+    (hrows : ins₁.flatten.Perm ins₂.flatten)
+    (h₁ : kmergeChecked (fun a b => lek (key a) (key b)) desc ins₁ = some (out₁, e₁))
+    (h₂ : kmergeChecked (fun a b => lek (key a) (key b)) desc ins₂ = some (out₂, e₂)) :
+    e₁ = false ∧ e₂ = false ∧ out₁.map key = out₂.map key := by
+  have hle : TotalPre (fun a b : α => lek (key a) (key b)) :=
+    ⟨fun a b => hk.total _ _, fun a b c => hk.trans _ _ _⟩
+  have f₁ := checked_facts _ hle desc ins₁ out₁ e₁ h₁
+  have f₂ := checked_facts _ hle desc ins₂ out₂ e₂ h₂
+  have he₁ : e₁ = false := f₁.1.mpr hs₁
+  have he₂ : e₂ = false := f₂.1.mpr hs₂
+  refine ⟨he₁, he₂, ?_⟩
+  have p : (out₁.map key).Perm (out₂.map key) :=
+    ((f₁.2.2.2 he₁).trans (hrows.trans (f₂.2.2.2 he₂).symm)).map key
+  have s₁ := f₁.2.1
+  have s₂ := f₂.2.1
+  cases desc
+  · simp only [SortedAs, Bool.false_eq_true, if_false, NonIncr] at s₁ s₂
+    refine List.Perm.eq_of_pairwise (le := fun a b => lek a b = true) ?_ ?_ ?_ p
+    · intro a b _ _ h1 h2; exact hanti a b h1 h2
+    · exact List.pairwise_map.mpr s₁
+    · exact List.pairwise_map.mpr s₂
+  · simp only [SortedAs, if_true, NonIncr] at s₁ s₂
+    refine List.Perm.eq_of_pairwise (le := fun a b => lek b a = true) ?_ ?_ ?_ p
+    · intro a b _ _ h1 h2; exact hanti a b h2 h1
+    · exact List.pairwise_map.mpr s₁
+    · exact List.pairwise_map.mpr s₂
+
+/-! ## Rows are carried, not computed: naturality, and the `columns=` option -/
+
+/-- `merge_sort` commutes with every row map `f` that keeps the score comparison: merging the
+images is the image of the merge, position by position — whatever else the rows hold is
+yielded unmodified, and nothing but the score influences the order -/
+theorem C14_kmerge_natural (f : α → β) (le : α → α → Bool) (le' : β → β → Bool)
+    (h : ∀ a b, le' (f a) (f b) = le a b) (inputs : List (List α)) :
+    kmerge le' (inputs.map (List.map f)) = (kmerge le inputs).map (List.map f) :=
+  kmerge_map f le le' h inputs
+
+/-- the same for the table merger (both modes; the `ValueError` is raised at the same place) -/
+theorem C14_checked_natural (f : α → β) (le : α → α → Bool) (le' : β → β → Bool)
+    (h : ∀ a b, le' (f a) (f b) = le a b) (desc : Bool) (inputs : List (List α)) :
+    kmergeChecked le' desc (inputs.map (List.map f))
+      = (kmergeChecked le desc inputs).map (fun r => (r.1.map f, r.2)) :=
+  kmergeChecked_map f le le' h desc inputs
+
+/-- `get_row_iterator(columns=…)` with a selection that keeps the priority column (in any
+position, with any other columns): the rows yielded are the projections of the rows yielded
+without a selection, in the same order, with the same `ValueError` — for every reader chunk size -/
+theorem C14_checked_columns (le : α → α → Bool) (leβ : β → β → Bool) (proj : α → β)
+    (hkey : ∀ a b, leβ (proj a) (proj b) = le a b) (desc : Bool) (c : Nat) (hc : 0 < c)
+    (files : List (List α)) :
+    kmergeCheckedCols leβ true proj desc c files
+      = (kmergeChecked le desc files).map (fun r => (r.1.map proj, r.2)) := by
+  unfold kmergeCheckedCols
+  rw [if_pos rfl, C14_checked_chunk_invariant leβ desc c hc]
+  exact kmergeChecked_map proj le leβ hkey desc files
+
+/-- a selection without the priority column is refused before anything is yielded -/
+theorem C14_checked_columns_without_priority (leβ : β → β → Bool) (proj : α → β) (desc : Bool)
+    (c : Nat) (files : List (List α)) : kmergeCheckedCols leβ false proj desc c files = none := by
+  simp [kmergeCheckedCols]
+
+/-! ## What `get_chunked_data_iterator` / `merge_readers` / `read` hand to their consumer -/
+
+/-- `get_chunked_data_iterator(chunk_size = c)`, `c ≥ 1`, on the result `r = (rows, raised?)` of
+the row iterator: the frames handed on, concatenated, are a prefix of the yielded rows — all of
+them when no error is raised; no frame is empty or longer than `c`; when `ValueError` propagates
+every frame handed on is full and fewer than `c` yielded rows are lost -/
+theorem C14_frames_delivered (c : Nat) (hc : 0 < c) (r : List α × Bool) :
+    (kmDeliverFrames c r).2 = r.2 ∧
+    (kmDeliverFrames c r).1.flatten <+: r.1 ∧
+    (r.2 = false → (kmDeliverFrames c r).1.flatten = r.1) ∧
+    (∀ f ∈ (kmDeliverFrames c r).1, f ≠ [] ∧ f.length ≤ c ∧ (r.2 = true → f.length = c)) ∧
+    (r.2 = true → r.1.length < (kmDeliverFrames c r).1.flatten.length + c) := by
+  have h := kmFramesGo_facts c r.2 r.1 [] (by simpa using hc)
+  simp only [List.nil_append] at h
+  exact ⟨rfl, h⟩
+
+/-- `merge_readers` (frames of one row): every row the merge yields reaches the consumer, one
+frame per row, also when the merge then ends in `ValueError` -/
+theorem C14_merge_readers_delivers_all (r : List α × Bool) :
+    (kmDeliverFrames 1 r).1.flatten = r.1 ∧ ∀ f ∈ (kmDeliverFrames 1 r).1, f.length = 1 := by
+  refine ⟨kmFramesGo_one r.2 r.1, ?_⟩
+  intro f hf
+  have h := (kmFramesGo_facts 1 r.2 r.1 [] (by simp)).2.2.1 f hf
+  have : f.length ≠ 0 := fun h0 => h.1 (List.length_eq_zero_iff.mp h0)
+  omega
+
+/-- at every entry point the consumer never receives an unsorted result: what
+`get_chunked_data_iterator(c)` / `merge_readers` / `read` hand on — up to the end or up to the
+`ValueError` — is sorted as declared and consists of distinct input rows; the error is passed on
+exactly when some input is not sorted as declared -/
+theorem C14_entry_points_sorted (le : α → α → Bool) (hle : TotalPre le) (desc : Bool) (c : Nat)
+    (hc : 0 < c) (inputs : List (List α)) (r : List α × Bool)
+    (h : kmergeChecked le desc inputs = some r) :
+    SortedAs le desc (kmDeliverFrames c r).1.flatten ∧
+    (kmDeliverFrames c r).1.flatten.Subperm inputs.flatten ∧
+    SortedAs le desc (kmDeliverRead r).1 ∧ (kmDeliverRead r).1.Subperm inputs.flatten ∧
+    ((kmDeliverFrames c r).2 = true ↔ ¬ ∀ xs ∈ inputs, SortedAs le desc xs) ∧
+    ((kmDeliverRead r).2 = true ↔ ¬ ∀ xs ∈ inputs, SortedAs le desc xs) := by
+  obtain ⟨out, err⟩ := r
+  have f := checked_facts le hle desc inputs out err h
+  have hp := (C14_frames_delivered c hc (out, err)).2.1
+  have herr : err = true ↔ ¬ ∀ xs ∈ inputs, SortedAs le desc xs := by rw [← f.1]; simp
+  refine ⟨sortedAs_of_prefix hp f.2.1, hp.sublist.subperm.trans f.2.2.1, ?_, ?_, herr, ?_⟩
+  · cases err
+    · simpa [kmDeliverRead] using f.2.1
+    · cases desc <;> simp [kmDeliverRead, SortedAs, NonIncr]
+  · cases err
+    · simpa [kmDeliverRead] using f.2.2.1
+    · simp [kmDeliverRead]
+  · cases err <;> simpa [kmDeliverRead] using herr
+
 /-! ## Non-vacuity and evaluation tests -/
 
 /-- rows `(score, id)` ordered by score only: a total preorder with genuine ties -/
@@ -233,6 +469,27 @@ example : TotalPre c14LeScore ∧ (∀ xs ∈ [[((5 : Int), 0), (3, 1), (3, 2)],
 example : (fun a b : Int => decide (a ≤ b)) 1 2 = true ∧
     (∀ a b : Int, decide (a ≤ b) = true → decide (b ≤ a) = true → a = b) :=
   ⟨by decide, fun a b h1 h2 => by simp at h1 h2; omega⟩
+
+/-- hypotheses of `C14_kmerge_split_invariant`: one row sequence with ties cut in two different
+ways into non-increasing inputs (1 input vs 3 inputs, a single-row input included) -/
+example : ([[((5 : Int), 0), (5, 1), (3, 2), (3, 3)]] : List (List (Int × Nat))).flatten
+      = [[(5, 0)], [(5, 1), (3, 2)], [(3, 3)]].flatten ∧
+    (∀ xs ∈ [[((5 : Int), 0), (5, 1), (3, 2), (3, 3)]], NonIncr c14LeScore xs) ∧
+    (∀ xs ∈ [[((5 : Int), 0)], [(5, 1), (3, 2)], [(3, 3)]], NonIncr c14LeScore xs) := by
+  refine ⟨rfl, ?_, ?_⟩
+  · intro xs hxs
+    simp only [List.mem_cons, List.not_mem_nil, or_false] at hxs
+    subst hxs; simp [NonIncr, c14LeScore]
+  · intro xs hxs
+    simp only [List.mem_cons, List.not_mem_nil, or_false] at hxs
+    rcases hxs with rfl | rfl | rfl <;> simp [NonIncr, c14LeScore]
+
+/-- hypothesis `hkey` of `C14_checked_columns` / `h` of the naturality theorems: selecting
+`["id", "score"]` (swapped) or `["score"]` keeps the score comparison -/
+example : (∀ a b : Int × Nat, (fun (x y : Nat × Int) => decide (x.2 ≤ y.2)) (a.2, a.1) (b.2, b.1)
+      = c14LeScore a b) ∧
+    (∀ a b : Int × Nat, (fun (x y : Int) => decide (x ≤ y)) a.1 b.1 = c14LeScore a b) :=
+  ⟨fun _ _ => rfl, fun _ _ => rfl⟩
 
 -- evaluation tests (compiler-evaluated: *tests*, not theorems); expected values are the
 -- outputs of the real functions on the same inputs
@@ -256,5 +513,28 @@ example : (fun a b : Int => decide (a ≤ b)) 1 2 = true ∧
     == "fail-error-iff-unsorted"
 #guard specMerge c14LeScore [[(5, 0), (3, 1)], [(4, 3)]] [(5, 0), (3, 1), (4, 3)] == "fail-sorted"
 #guard specMerge c14LeScore [[(5, 0), (3, 1)], [(4, 3)]] [(5, 0), (4, 3)] == "fail-perm"
+
+-- the tie rule: first input wins, then position (expected values = outputs of the real functions)
+#guard stableSortDesc c14LeScore ([[(5, 0), (3, 1), (3, 2)], [(4, 3)], [(5, 4), (5, 5), (1, 6)]] : List (List (Int × Nat))).flatten
+    == [(5, 0), (5, 4), (5, 5), (4, 3), (3, 1), (3, 2), (1, 6)]
+#guard stableSortAs c14LeScore false [(1, 0), (3, 1), (1, 2), (3, 3)] == [(1, 0), (1, 2), (3, 1), (3, 3)]
+#guard kmergeChecked c14LeScore true [[(3, 0)], [(3, 1), (3, 2)], [(3, 3)]]
+    == some (stableSortAs c14LeScore true [(3, 0), (3, 1), (3, 2), (3, 3)], false)
+-- `columns=["id", "score"]` (swap) and `columns=["score"]`
+#guard kmergeCheckedCols (fun (a b : Nat × Int) => decide (a.2 ≤ b.2)) true (fun r : Int × Nat => (r.2, r.1)) true 2
+    [[(5, 0), (3, 1)], [(4, 3)]] == some ([(0, 5), (3, 4), (1, 3)], false)
+#guard kmergeCheckedCols (fun (a b : Int) => decide (a ≤ b)) true (fun r : Int × Nat => r.1) true 1
+    [[(5, 0), (3, 1), (7, 2)], [(4, 3)]] == some ([5, 4, 3], true)
+#guard kmergeCheckedCols (fun (_ _ : Nat) => true) false (fun r : Int × Nat => r.2) true 1
+    [[(5, 0), (3, 1)], [(4, 3)]] == none
+
+-- frames: complete ones only when the error propagates; one-row frames lose nothing
+#guard kmDeliverFrames 2 ([1, 2, 3, 4, 5], false) == ([[1, 2], [3, 4], [5]], false)
+#guard kmDeliverFrames 2 ([1, 2, 3, 4, 5], true) == ([[1, 2], [3, 4]], true)
+#guard kmDeliverFrames 1 ([1, 2, 3], true) == ([[1], [2], [3]], true)
+#guard kmDeliverFrames 3 ([1, 2], true) == ([], true)
+#guard kmDeliverRead ([1, 2, 3], true) == (([] : List Nat), true)
+#guard ((kmergeChecked c14LeScore true [[(5, 0), (3, 1), (7, 2)], [(4, 3)]]).map (kmDeliverFrames 2))
+    == some ([[(5, 0), (4, 3)]], true)
 
 end Mk.Merge
